@@ -126,6 +126,8 @@ pub struct MkEnt {
     pub t1: Expr,
     pub t2: Expr,
     pub specify: Option<Expr>,
+    /// the creator specifies only while this evaluates to non-zero (struct is created either way)
+    pub spec_when: Option<Expr>,
     pub pre_read: bool,
     pub twice: bool,
 }
@@ -137,6 +139,8 @@ pub struct Node {
     pub mk: Vec<MkEnt>,
     /// fallback value (Fb) / unused otherwise
     pub fb: u16,
+    /// maker declared with `lru = 1` (its Vec of structs can be evicted; identities must survive)
+    pub lru_maker: bool,
 }
 
 #[derive(Clone, PartialEq, Eq, Debug, Hash)]
@@ -185,6 +189,9 @@ impl fmt::Display for Prog {
                 write!(f, "[fb={}]", n.fb)?;
             }
             if n.kind == Kind::Maker {
+                if n.lru_maker {
+                    write!(f, "[lru=1]")?;
+                }
                 write!(f, "{{")?;
                 for m in &n.mk {
                     write!(
@@ -194,6 +201,9 @@ impl fmt::Display for Prog {
                     )?;
                     if let Some(s) = &m.specify {
                         write!(f, ",spec={s}")?;
+                    }
+                    if let Some(s) = &m.spec_when {
+                        write!(f, ",spec_when={s}")?;
                     }
                     if m.pre_read {
                         write!(f, ",pre")?;
@@ -322,6 +332,10 @@ pub struct GenCfg {
     pub accum_reqs: bool,
     pub intern_reqs: bool,
     pub entries_reqs: bool,
+    /// some makers are declared with `lru = 1`
+    pub lru_makers: bool,
+    /// durability-profiled histories (common high durability first, value-preserving durability changes)
+    pub dur_profile: bool,
 }
 
 #[derive(Clone, Debug)]
@@ -358,6 +372,8 @@ impl GenCfg {
             accum_reqs: false,
             intern_reqs: false,
             entries_reqs: false,
+            lru_makers: false,
+            dur_profile: false,
         }
     }
 }
@@ -516,8 +532,10 @@ pub fn gen_prog(rng: &mut Rng, cfg: &GenCfg) -> Prog {
             body: Expr::Const(0),
             mk: vec![],
             fb: 0,
+            lru_maker: false,
         };
         if kind == Kind::Maker {
+            node.lru_maker = cfg.lru_makers && g.rng.chance(1, 2);
             let k = g.rng.range(1, 3);
             for _ in 0..k {
                 let small = |g: &mut G| -> Expr {
@@ -536,6 +554,11 @@ pub fn gen_prog(rng: &mut Rng, cfg: &GenCfg) -> Prog {
                 } else {
                     None
                 };
+                let spec_when = if specify.is_some() && g.rng.chance(1, 2) {
+                    Some(small(&mut g))
+                } else {
+                    None
+                };
                 let pre_read = specify.is_some() && g.rng.chance(1, 5);
                 let twice = cfg.spec_panics && specify.is_some() && g.rng.chance(1, 12);
                 node.mk.push(MkEnt {
@@ -545,6 +568,7 @@ pub fn gen_prog(rng: &mut Rng, cfg: &GenCfg) -> Prog {
                     t1: small(&mut g),
                     t2: small(&mut g),
                     specify,
+                    spec_when,
                     pre_read,
                     twice,
                 });
@@ -690,6 +714,7 @@ fn gen_cyclic(rng: &mut Rng, cfg: &GenCfg, c: &CycCfg) -> Prog {
             body,
             mk: vec![],
             fb: (rng.next() as u16) & mask,
+            lru_maker: false,
         });
     }
     Prog {
@@ -718,6 +743,7 @@ fn tmpl_relay(rng: &mut Rng, mask: u16, kinds: &[Kind]) -> Prog {
         body,
         mk: vec![],
         fb: 0,
+        lru_maker: false,
     };
     // n0 head, n1 head_copy, n2 relay, n3 down, n4 down_copy
     let mut nodes = vec![
@@ -792,6 +818,26 @@ pub fn gen_history(rng: &mut Rng, cfg: &GenCfg, prog: &Prog) -> Vec<Step> {
             _ => Req::Node(n),
         }
     };
+    // model of the current field values (for value-preserving durability changes)
+    let mut cur = vec![[0u16; 2]; prog.ncells];
+    let profiled = cfg.dur_profile && rng.chance(2, 3);
+    if profiled {
+        // every field starts out with a common high durability, so whole sub-graphs are
+        // validated through the durability shortcut until individual fields are lowered
+        let d = *rng.pick(&[Dur::Medium, Dur::High, Dur::High]);
+        for cell in 0..prog.ncells {
+            for field in 0..2 {
+                let val = rng.below(vmax) as u16;
+                cur[cell][field] = val;
+                h.push(Step::Set {
+                    cell,
+                    field,
+                    val,
+                    dur: Some(d),
+                });
+            }
+        }
+    }
     // first: a few requests so memos exist
     for _ in 0..rng.range(1, 4) {
         h.push(Step::Req(req(rng)));
@@ -807,10 +853,16 @@ pub fn gen_history(rng: &mut Rng, cfg: &GenCfg, prog: &Prog) -> Vec<Step> {
             } else {
                 None
             };
+            let mut val = rng.below(vmax) as u16;
+            if profiled && dur.is_some() && rng.chance(1, 2) {
+                // same value, new durability
+                val = cur[cell][field];
+            }
+            cur[cell][field] = val;
             h.push(Step::Set {
                 cell,
                 field,
-                val: rng.below(vmax) as u16,
+                val,
                 dur,
             });
         } else if r < 36 {
